@@ -212,7 +212,8 @@ func C16(c *core.Ctx) error {
 		"clean":     func(s string) any { return filepath.Clean(s) },
 		"dir":       func(s string) any { return filepath.Dir(s) },
 	}
-	spaced := append([]string{" a ", "\ta\n", " ", "a/b", "a/b/", "/", "a/../b", "./a", "a//b"}, strs...)
+	// incl. first runes whose case mapping changes the UTF-8 length (dotless i, turned a, long s, digraphs)
+	spaced := append([]string{" a ", "\ta\n", " ", "a/b", "a/b/", "/", "a/../b", "./a", "a//b", "ısı", "ɐlpha", "ɐ", "ſa", "ǆx", "ⱥb", "İx", "Ⱥ"}, strs...)
 	for _, fn := range core.SortedKeys(one) {
 		for _, s := range spaced {
 			add(fn, one[fn](s), sArg(s))
